@@ -52,6 +52,13 @@ struct State {
     events: Vec<Event>,
     /// Extra ranges that count as immortal (executable image, phantom buffers).
     immortal: Vec<(usize, usize)>,
+    /// Blocks the code under test has freed in the running case: their
+    /// memory is given back to the system allocator only when the next case
+    /// begins (`flush_delayed`), so that a use after free by the code under
+    /// test reads stale but valid memory (a deterministic panic, double free
+    /// or wrong result that the oracles report) instead of corrupting the
+    /// heap of the worker process (a crash or hang some time later).
+    delayed: Vec<(usize, usize, usize)>,
 }
 
 static STATE: Mutex<Option<State>> = Mutex::new(None);
@@ -164,6 +171,7 @@ fn with_state<R>(f: impl FnOnce(&mut State) -> R) -> R {
         holds: Vec::new(),
         events: Vec::new(),
         immortal: Vec::new(),
+        delayed: Vec::new(),
     });
     f(state)
 }
@@ -219,6 +227,12 @@ unsafe impl GlobalAlloc for Tracking {
                                 ok = false;
                             }
                         }
+                        if ok && block.tag == TAG_A10 && layout.size() <= DELAY_MAX && DELAY_A10_FREES.load(Ordering::Relaxed) && s.delayed.len() < s.delayed.capacity() {
+                            // Dead for the tracker, but the memory stays
+                            // mapped until the next case begins.
+                            s.delayed.push((addr, layout.size(), layout.align()));
+                            ok = false;
+                        }
                         ok
                     }
                     None => {
@@ -245,6 +259,36 @@ unsafe impl GlobalAlloc for Tracking {
     }
     // NOTE: `realloc` uses the default implementation (alloc + copy +
     // dealloc), so a moved block is seen as a free of the old address.
+}
+
+/// Frees of blocks allocated by the code under test are delayed until the
+/// next case begins (simulator-based checks; see `State::delayed`).
+pub static DELAY_A10_FREES: std::sync::atomic::AtomicBool = std::sync::atomic::AtomicBool::new(false);
+const DELAY_MAX: usize = 1 << 16;
+
+/// Turn the delay on (once per process, before the first case).
+pub fn enable_delayed_frees() {
+    untracked(|| with_state(|s| s.delayed.reserve_exact(DELAY_SLOTS)));
+    DELAY_A10_FREES.store(true, Ordering::SeqCst);
+}
+const DELAY_SLOTS: usize = 1 << 17;
+
+/// Give the memory of the blocks freed during the previous case back.
+pub fn flush_delayed() {
+    // (The list keeps its capacity: pushing inside the allocator must never
+    // allocate; when it is full, blocks are freed at once as before.)
+    let list: Vec<(usize, usize, usize)> = untracked(|| {
+        with_state(|s| {
+            let copy = s.delayed.clone();
+            s.delayed.clear();
+            copy
+        })
+    });
+    for (addr, size, align) in list {
+        if let Ok(layout) = Layout::from_size_align(size, align) {
+            unsafe { System.dealloc(addr as *mut u8, layout) };
+        }
+    }
 }
 
 /// Start tracking. Blocks allocated before this call are unknown to the
